@@ -215,6 +215,7 @@ def _gen_one(job):
     try:
         u = facts.Unit(out)
         u.text = open(cfile, errors='replace').read()
+        u.htext = open(hfile, errors='replace').read() if os.path.exists(hfile) else ''
         res = query(u, p)
     finally:
         try:
